@@ -292,8 +292,9 @@ pub fn zlib_stream(rng: &mut Rng) -> Option<Stream> {
 
 pub fn file_streams() -> Vec<Stream> {
     let mut v = Vec::new();
-    let dir = "/repo/miniz_oxide/tests/test_data";
-    if let Ok(rd) = std::fs::read_dir(dir) {
+    let repo = std::env::var("VERIF_REPO").unwrap_or_else(|_| "/repo".to_string());
+    let dir = format!("{}/miniz_oxide/tests/test_data", repo);
+    if let Ok(rd) = std::fs::read_dir(&dir) {
         let mut names: Vec<_> = rd.filter_map(|e| e.ok()).map(|e| e.path()).collect();
         names.sort();
         for p in names {
@@ -309,7 +310,7 @@ pub fn file_streams() -> Vec<Stream> {
             }
         }
     }
-    if let Ok(src) = std::fs::read("/repo/miniz/miniz.c") {
+    if let Ok(src) = std::fs::read(format!("{}/miniz/miniz.c", repo)) {
         if zlib::available() {
             for lvl in [1, 6, 9] {
                 if let Some(z) = zlib::deflate(&src, lvl, 15, 8, 0, 0, 0) {
@@ -322,9 +323,9 @@ pub fn file_streams() -> Vec<Stream> {
 }
 
 pub fn run(ctx: &Ctx, rep: &mut Report) {
-    let n_g = ctx.n(3000, 200_000);
-    let n_m = ctx.n(500, 8000);
-    let n_z = ctx.n(600, 20_000);
+    let n_g = ctx.n(5000, 200_000);
+    let n_m = ctx.n(800, 8000);
+    let n_z = ctx.n(1000, 20_000);
     for k in ctx.cases(n_g + n_m + n_z + 1) {
         rep.cur_case = k;
         crate::ctx::begin_case(k);
